@@ -6,6 +6,7 @@ CONSTANTS
   MaxSteps = 6
   MaxTerms = 5
   Emit = "done"
+  FillChoices <- MC_Fill0
   Bug = "none"
 CONSTRAINT Small
 INVARIANTS InvStep InvNoLostUpdate EmitInv
